@@ -139,3 +139,17 @@ func (sc *Scan) Lit() string {
 		CoqN(p.MinimumStakeForDelegates), CoqN(p.MinimumOrderSize), CoqN(p.MaxSlashPerCommittee))
 	return fmt.Sprintf("(mkL %s %s %s %s %s %s %s %s %s %s)", pairList(acc), poolList(sc.Pools), pairList(vals), sup, mk(sc.Unstaking), mk(sc.Paused), pairList(ords), prm, CoqN(sc.Height), CoqN(sc.Chain))
 }
+
+// ParamsView is what the state machine's own getters (and therefore whatever caches stand in front of the store) report for the
+// four parameter spaces, as hex of the deterministic encoding. It is compared before / after work that must leave no trace.
+func ParamsView(sm *fsm.StateMachine) string {
+	p, err := sm.GetParams()
+	if err != nil {
+		return "error: " + err.Error()
+	}
+	bz, e := lib.Marshal(p)
+	if e != nil {
+		return "error: " + e.Error()
+	}
+	return Hex(bz)
+}
